@@ -10,10 +10,11 @@ import (
 	"github.com/rs/zerolog/log"
 )
 
-var k = koanf.New(".")
-
 // updatePackageInfoFromArgs overrides the fields in packageInfo using command-line arguments
 func updatePackageInfoFromArgs(packageInfo *packaging.PackageInfo, configArgs map[string]string) error {
+	// a fresh instance for every package: what an earlier load left behind (watch mode loads the
+	// package again and again) must not be merged into this one
+	k := koanf.New(".")
 	if err := k.Load(structs.Provider(packageInfo, "yaml"), nil); err != nil {
 		log.Panic().Msgf("error loading package info: %v", err)
 	}
